@@ -273,6 +273,15 @@ def reorderGlyphs(font: ttLib.TTFont, new_glyph_order: List[str]):
         if tag in font:
             font[tag].cff.topDictIndex[0].CharStrings
 
+    # HVAR/VVAR without an advance mapping use the glyph ID as (inner) delta-set
+    # index: make that mapping explicit before the glyph IDs change.
+    for tag, attr in (("HVAR", "AdvWidthMap"), ("VVAR", "AdvHeightMap")):
+        if tag in font and getattr(font[tag].table, attr, None) is None:
+            from fontTools.varLib.builder import buildVarIdxMap
+
+            varIdxes = list(range(len(old_glyph_order)))
+            setattr(font[tag].table, attr, buildVarIdxMap(varIdxes, old_glyph_order))
+
     font.setGlyphOrder(new_glyph_order)
 
     coverage_containers = {"GDEF", "GPOS", "GSUB", "MATH"}
